@@ -1,0 +1,90 @@
+//go:build verif
+
+// Contracts for the rating server (package rf). Compiled only under the build tag "verif".
+
+package rf
+
+import (
+	"math"
+	"strconv"
+	"strings"
+
+	"github.com/fiorix/go-diameter/diam/datatype"
+
+	charging_datatype "github.com/free5gc/chf/ccs_diameter/datatype"
+)
+
+func verif_forall[T any](f func(T) bool) bool { return true }
+
+// ---- ghost state (updated by the assumed contracts of go-diameter and mongoapi) -----------
+var (
+	ghostUnmarshalled any                          // destination of the last Message.Unmarshal
+	ghostUnmarshalErr error                        // its result
+	ghostMarshalled   any                          // value of the last Message.Marshal
+	ghostWrites       int                          // number of Message.WriteTo calls
+	ghostUnitCost     map[string]map[uint32]string // stored tariff per (ueId, ratingGroup)
+)
+
+// specUnitCost: the unit cost both sides derive from a tariff: ValueDigits * 10^Exponent in Unsigned32
+// arithmetic (internal/sbi/processor.getUnitCost uses the same formula on the received tariff).
+func specUnitCost(t *charging_datatype.MonetaryTariff) datatype.Unsigned32 {
+	return datatype.Unsigned32(t.RateElement.UnitCost.ValueDigits) *
+		datatype.Unsigned32(specPow10(int(t.RateElement.UnitCost.Exponent)))
+}
+
+// specPow10 stands for math.Pow10 (uninterpreted)
+func specPow10(e int) float64 { return math.Pow10(e) }
+
+func specReq() *charging_datatype.ServiceUsageRequest {
+	return ghostUnmarshalled.(*charging_datatype.ServiceUsageRequest)
+}
+
+func specAns() *charging_datatype.ServiceUsageResponse {
+	return ghostMarshalled.(*charging_datatype.ServiceUsageResponse)
+}
+
+// specKnown: the request names a subscriber and rating group with a stored tariff
+func specKnown(sur *charging_datatype.ServiceUsageRequest) bool {
+	if ghostUnmarshalErr != nil || sur.SubscriptionId == nil || sur.ServiceRating == nil {
+		return false
+	}
+	if sur.SubscriptionId.SubscriptionIdType != charging_datatype.END_USER_IMSI {
+		return false
+	}
+	m, ok := ghostUnitCost["imsi-"+string(sur.SubscriptionId.SubscriptionIdData)]
+	if !ok {
+		return false
+	}
+	_, ok = m[uint32(sur.ServiceRating.ServiceIdentifier)]
+	return ok
+}
+
+func specStoredCost(sur *charging_datatype.ServiceUsageRequest) string {
+	return ghostUnitCost["imsi-"+string(sur.SubscriptionId.SubscriptionIdData)][uint32(sur.ServiceRating.ServiceIdentifier)]
+}
+
+func specAtoiOK(s string) bool   { _, err := strconv.Atoi(s); return err == nil }
+func specAtoi(s string) int      { v, _ := strconv.Atoi(s); return v }
+func specNoDot(s string) bool    { return strings.Index(s, ".") == -1 }
+func specDotPos(s string) int    { return strings.Index(s, ".") }
+func specDigits(s string) string { return strings.Replace(s, ".", "", -1) }
+
+// buildTaffif: an integer string is taken as is (exponent 0); a decimal fraction keeps its digits
+// and gets the number of fraction digits as exponent; malformed text leaves the digits 0.
+//@ func buildTaffif [C08]
+//@   ensures result != nil && result.RateElement != nil && result.RateElement.UnitCost != nil
+//@   ensures specNoDot(unitCostStr) ==> result.RateElement.UnitCost.Exponent == 0
+//@   ensures specNoDot(unitCostStr) && specAtoiOK(unitCostStr) ==> int(result.RateElement.UnitCost.ValueDigits) == specAtoi(unitCostStr)
+//@   ensures specNoDot(unitCostStr) && !specAtoiOK(unitCostStr) ==> result.RateElement.UnitCost.ValueDigits == 0
+//@   ensures !specNoDot(unitCostStr) && len(unitCostStr) < 1<<31 ==> int(result.RateElement.UnitCost.Exponent) == len(unitCostStr)-specDotPos(unitCostStr)-1
+//@   ensures !specNoDot(unitCostStr) && specAtoiOK(specDigits(unitCostStr)) ==> int(result.RateElement.UnitCost.ValueDigits) == specAtoi(specDigits(unitCostStr))
+
+// The handler's real input is the decoded request; the mandatory AVPs (Subscription-Id, Service-Rating)
+// are an environment precondition stated where the decoded request first exists.
+//@ func handleSUR$1 [C08]
+//@   requires c != nil && m != nil
+//@   assume "sr := sur.ServiceRating": sur.ServiceRating != nil && sur.SubscriptionId != nil
+//@   ensures specKnown(specReq()) ==> ghostWrites == old(ghostWrites) + 1
+//@   ensures specKnown(specReq()) ==> specAns().ServiceRating != nil && specAns().ServiceRating.MonetaryTariff != nil && specAns().SessionId == specReq().SessionId
+//@   ensures specKnown(specReq()) && specReq().ServiceRating.RequestSubType == charging_datatype.REQ_SUBTYPE_DEBIT ==> specAns().ServiceRating.Price == specReq().ServiceRating.ConsumedUnits*specUnitCost(specAns().ServiceRating.MonetaryTariff) && specAns().ServiceRating.AllowedUnits == 0
+//@   ensures specKnown(specReq()) && specReq().ServiceRating.RequestSubType == charging_datatype.REQ_SUBTYPE_RESERVE && specUnitCost(specAns().ServiceRating.MonetaryTariff) != 0 ==> specAns().ServiceRating.AllowedUnits == specReq().ServiceRating.MonetaryQuota/specUnitCost(specAns().ServiceRating.MonetaryTariff) && specAns().ServiceRating.Price == specAns().ServiceRating.AllowedUnits*specUnitCost(specAns().ServiceRating.MonetaryTariff) && specAns().ServiceRating.Price <= specReq().ServiceRating.MonetaryQuota
